@@ -26,6 +26,11 @@ from vlib import facts
 ALLOC = {'_Znwm', '_Znam', '_ZnwmSt11align_val_t', '_ZnamSt11align_val_t', '_ZnwmRKSt9nothrow_t',
          '_ZnamRKSt9nothrow_t', 'malloc', 'calloc', 'realloc', 'posix_memalign', 'aligned_alloc', 'memalign',
          'valloc', 'strdup'}
+# libstdc++'s std::string is explicitly instantiated in the shared library: its members are externals of the IR
+STRING = '_ZNSt7__cxx1112basic_stringIcSt11char_traitsIcESaIcEE'
+ALLOC |= {STRING + 'C1ERKS4_', STRING + 'C2ERKS4_', STRING + 'aSERKS4_', STRING + '9_M_assignERKS4_',
+          STRING + '9_M_createERmm', STRING + '7reserveEm', STRING + '9_M_appendEPKcm', STRING + '6appendEPKc',
+          STRING + 'C1EPKcRKS3_', STRING + 'C2EPKcRKS3_'}
 INF = float('inf')
 
 # external (not defined in the merged IR) callees that are known not to allocate — with the reason
@@ -48,6 +53,9 @@ ALLOW = [
     (r'^_ZNSt3_V215system_categoryEv$|^_ZNSt3_V216generic_categoryEv$|^_ZSt20__throw_system_errori$', 'error category'),
     (r'^_ZN6yaclib6detail10LogMessage', 'logging callback (disabled in the analysed configuration)'),
     (r'^_ZN6yaclib11InjectFaultEv$', 'fault injection hook'),
+    (r'^_ZNSaIcE(C1|C2)ERKS_$|^_ZNSaIcE(D1|D2)Ev$|^_ZNSaIcE(C1|C2)Ev$', 'std::allocator<char> copy / destruction (stateless)'),
+    (r'^_ZNSt7__cxx1112basic_stringIcSt11char_traitsIcESaIcEE(C1EOS4_|C2EOS4_|C1Ev|C2Ev|D1Ev|D2Ev|aSEOS4_|4swapERS4_)$',
+     'std::string move construction / move assignment / destruction / swap (no heap)'),
     (r'^_ZNSt8__detail15_List_node_base', 'std::list node linking (no heap)'),
     (r'^_ZNKSt9type_info|^__dynamic_cast$', 'RTTI'),
     (r'^__atomic_|^__sync_', 'atomic builtins'),
@@ -193,6 +201,10 @@ class Alloc:
 
     def fmax(self, name):
         if name in ALLOC:
+            return 1
+        if re.match(r'^_ZNSt6vectorI.*E7reserveEm$', name):
+            # std::vector::reserve is one block.  (Its relocation loop copies elements whose move is not noexcept, but
+            # the library only reserves freshly created result vectors: there is nothing to relocate.)
             return 1
         f = self.funcs.get(name)
         if f is None:
